@@ -38,6 +38,15 @@ static Json evalDeriv(const std::string& f, const std::string& var, const double
   }
   return r;
 }
+// C13: the C++ formula of the evaluator (compiled and evaluated by a second stage, see checks/C13.py)
+static Json cxxFormula(const std::string& f) {
+  try {
+    Evaluator ev(VARS, f);
+    return Json(ev.getCxxFormula());
+  } catch (std::exception&) {
+    return Json("");
+  }
+}
 static double argValue(const std::string& a) {
   if (a == "x/4") return X / 4;
   if (a == "x") return X;
@@ -125,8 +134,10 @@ int main(int argc, char** argv) {
       r.set("min", evalArith(c["fmin"].asStr(), den)).set("ws", evalArith(c["fws"].asStr(), den)).set("full", evalArith(c["ffull"].asStr(), den));
       r.set("dx", evalDeriv(c["fmin"].asStr(), "x", double(c["ddx"].asInt())));
       r.set("dy", evalDeriv(c["fmin"].asStr(), "y", double(c["ddy"].asInt())));
+      r.set("cxx", cxxFormula(c["fmin"].asStr()));
     } else if (kind == "cond") {
       r.set("min", evalArith(c["fmin"].asStr(), 1.)).set("full", evalArith(c["ffull"].asStr(), 1.));
+      r.set("cxx", cxxFormula(c["fmin"].asStr()));
     } else if (kind == "silent") {
       const auto o = evalArith(c["formula"].asStr(), double(c["den"].asInt()));
       r.set("got", o["got"]).set("q", o["q"]).set("tight", o["tight"]);
